@@ -643,6 +643,15 @@ def classify(case: str, out: str):
 LEAVES = ["M", "Mc", "N", "T", "F", "I0", "I3", "Sx", "S", "L0", "U0", "D0", "E0", "Z0", "Q", "P"]
 
 
+def extra_obligations():
+    """MissingType.__call__, the dunder methods of Missing, is_missing / not_missing / when_missing regenerated from /repo's
+    missing.py as MiniPy terms and proved to be what the model takes them to be (singleton call, (Missing, ()) reduce,
+    identity predicates, falsy, == by identity, attribute access refused) for every argument"""
+    from harness import core, regen
+
+    return regen.check("missing", core.REPO, core.LEAN)
+
+
 def corpus():
     cs = [f"{op} M" for op in OPS]                              # copy / deepcopy / pickle made a second instance on the pinned tree
     cs += [f"{op} L2 I1 M" for op in ("copy", "deepcopy", "pickle0", "pickle2", "pickle5")]
